@@ -109,14 +109,28 @@ func runC19(c *core.Ctx, idx int) {
 			}
 			match, judged, _ := env.w.Match(pred, qx.Things)
 			n := int64(len(match))
-			nSorts := 2
+			// unsorted, a random sort, then the same symbols with every direction flipped and the first one again: the
+			// object store instance is shared, so anything it remembers about an earlier sort would show
+			nSorts := 4
+			var firstSort []qx.SortF
 			for si := 0; si < nSorts; si++ {
 				var sortSpec []qx.SortF
-				if si > 0 {
+				switch si {
+				case 1:
 					sortSpec = g.Sort(5)
 					if r.P(0.2) {
 						sortSpec = append([]qx.SortF{{Sym: "id", Desc: true, Dir: "desc"}}, sortSpec...)
 					}
+					firstSort = sortSpec
+				case 2:
+					for _, f := range firstSort {
+						f.Desc = !f.Desc
+						f.Dir = map[bool]string{true: "desc", false: core.Pick(r, []string{"", "asc"})}[f.Desc]
+						sortSpec = append(sortSpec, f)
+					}
+					c.Count("flipped_sorts", 1)
+				case 3:
+					sortSpec = firstSort
 				}
 				for _, f := range sortSpec {
 					c.Cover("sort_type", f.Sym)
@@ -124,8 +138,8 @@ func runC19(c *core.Ctx, idx int) {
 				skips, limits := c02Grid(n)
 				for _, sk := range skips {
 					for _, lm := range limits {
-						if fi >= 2 && r.P(0.6) {
-							continue // the full grid on the first two filters, a sample on the others
+						if (fi >= 2 || si >= 2) && r.P(0.6) {
+							continue // the full grid on the first two filters, a sample on the others and on the flipped / repeated sorts
 						}
 						q := &qx.Query{Pred: pred, Sort: sortSpec, Skip: sk, Limit: lm.v, LimitNone: lm.none}
 						text := q.Stream().Canon()
